@@ -91,10 +91,11 @@ def gen_cases(ck):
             tags = sg.Tags()
             seq0, sev0 = client(rng, tags, 0, 1, 1, 1, [n], [True], "one_burst")
             seq1, sev1 = client(rng, tags, 1, 1, 0, 1, [rng.randrange(0, 4)], [True], rng.choice(["one_burst", "per_frame"]))
-            for _ in range(8 if quick else 30):
-                m = sg.random_merge(rng, [[seq0[0], ["fw", 0, k]] + seq0[1:], sev0, seq1, sev1])
+            for _i in range(8 if quick else 30):
+                kind = sg.IO_KINDS[(n + k + _i) % len(sg.IO_KINDS)]
+                m = sg.random_merge(rng, [[seq0[0], sg.fw(0, k, kind)] + seq0[1:], sev0, seq1, sev1])
                 mask = rng.choice([(1 << len(m)) - 1, rng.getrandbits(len(m))])
-                add(sg.with_polls(m, mask), [1], "write_failure_at_item", {"len": n, "fail_at_write": k}, failing=[0])
+                add(sg.with_polls(m, mask), [1], "write_failure_at_item", {"len": n, "fail_at_write": k, "kind": kind}, failing=[0])
     # (f) flag combinations on the streaming call (oneway / more / upgrade absent, true, written-out false; any
     #     member position): a oneway call answered Multi gets nothing and its stream is dropped, the
     #     connection keeps taking calls and the calls pipelined behind it are answered in order; otherwise the
@@ -189,7 +190,7 @@ def gen_cases(ck):
             if nsub == 0 and len(seq) == 1:
                 seq.append(["a", cid, sg.wire([sg.call("Echo", cid, tags.next(), v=1)]).hex()])
             if rng.random() < 0.15:
-                seq.insert(1, ["fw", cid, rng.randrange(0, 6)])
+                seq.insert(1, sg.fw(cid, rng.randrange(0, 6), rng.choice(sg.IO_KINDS)))
                 failing.append(cid)
             else:
                 hyp.append(cid)
